@@ -80,7 +80,12 @@ func newLeaderRig(ts TxnSchema, sid string, leader bool) (*leaderRig, error) {
 		return nil, err
 	}
 	cid, one := mkUUID(990001), 1
-	ops, err := g.admin.Create(&serverdb.Database{UUID: "row", Name: "db", Model: serverdb.DatabaseModelClustered, Connected: true, Leader: leader, Sid: &sid, Cid: &cid, Index: &one})
+	// as a real server does, the _Server database lists itself too (standalone, always "leader"), and
+	// sometimes a second standalone database: the leader check has to look at the row of its own database
+	rowsS := []model.Model{&serverdb.Database{UUID: "self", Name: "_Server", Model: serverdb.DatabaseModelStandalone, Connected: true, Leader: true},
+		&serverdb.Database{UUID: "row", Name: "db", Model: serverdb.DatabaseModelClustered, Connected: true, Leader: leader, Sid: &sid, Cid: &cid, Index: &one},
+		&serverdb.Database{UUID: "other", Name: "aaa_other", Model: serverdb.DatabaseModelStandalone, Connected: true, Leader: true}}
+	ops, err := g.admin.Create(rowsS...)
 	if err != nil {
 		g.Close()
 		return nil, err
@@ -90,7 +95,11 @@ func newLeaderRig(ts TxnSchema, sid string, leader bool) (*leaderRig, error) {
 		g.Close()
 		return nil, fmt.Errorf("cannot create the _Server row: %v %v", err, res)
 	}
-	g.rowUUID = res[0].UUID.GoUUID
+	if len(res) < 2 {
+		g.Close()
+		return nil, fmt.Errorf("cannot create the _Server rows: %v", res)
+	}
+	g.rowUUID = res[1].UUID.GoUUID
 	return g, nil
 }
 
